@@ -321,9 +321,9 @@ headers, kinds of statements and the names they bind) they had when the model wa
 loop, early exit or rebinding has been added that the model does not describe -/
 theorem modelled_functions_have_the_transcribed_shape :
     MlVerif.Gen.C20.shapeBuildTsXy =
-      "assert;if(same_rows){if(model.use_all_past){ncol=;nrow=;new_X=;first=;if(X is not None){for(i in range(0, model.past)){begin=;end=;new_X[]=}};for(i in range(0, model.past)){end=;new_X[]=};new_y=;for(i in range(model.delay1, model.delay2)){new_y[]=};new_weights=}else{ncol=;nrow=;first=;new_X=;if(X is not None){new_X[]=};for(i in range(model.past)){end=;new_X[]=};new_y=;for(i in range(model.delay1, model.delay2)){dec=;new_y[]=};new_weights=}}else{if(model.use_all_past){ncol=;nrow=;new_X=;if(X is not None){for(i in range(0, model.past)){begin=;end=;new_X[]=}};for(i in range(0, model.past)){end=;new_X[]=};new_y=;for(i in range(model.delay1, model.delay2)){new_y[]=};new_weights=}else{ncol=;nrow=;new_X=;if(X is not None){new_X[]=};for(i in range(model.past)){end=;new_X[]=};new_y=;for(i in range(model.delay1, model.delay2)){dec=;new_y[]=};new_weights=}};return" ∧
+      "sig(model, X, y, weights=None, same_rows=False)|assert;if(same_rows){if(model.use_all_past){ncol=;nrow=;new_X=;first=;if(X is not None){for(i in range(0, model.past)){begin=;end=;new_X[]=}};for(i in range(0, model.past)){end=;new_X[]=};new_y=;for(i in range(model.delay1, model.delay2)){new_y[]=};new_weights=}else{ncol=;nrow=;first=;new_X=;if(X is not None){new_X[]=};for(i in range(model.past)){end=;new_X[]=};new_y=;for(i in range(model.delay1, model.delay2)){dec=;new_y[]=};new_weights=}}else{if(model.use_all_past){ncol=;nrow=;new_X=;if(X is not None){for(i in range(0, model.past)){begin=;end=;new_X[]=}};for(i in range(0, model.past)){end=;new_X[]=};new_y=;for(i in range(model.delay1, model.delay2)){new_y[]=};new_weights=}else{ncol=;nrow=;new_X=;if(X is not None){new_X[]=};for(i in range(model.past)){end=;new_X[]=};new_y=;for(i in range(model.delay1, model.delay2)){dec=;new_y[]=};new_weights=}};return" ∧
     MlVerif.Gen.C20.shapeTsMape =
-      "assert;expected_y=;predicted_y=;mask=;mask2=;mask2[]BitOr=;expected_y=;predicted_y=;if(sample_weight is None){dy1=;dy2=}else{dy1=;dy2=};dy1=;dy2=;if(dy1 == 0){return};return" :=
+      "sig(expected_y, predicted_y, sample_weight=None)|assert;expected_y=;predicted_y=;mask=;mask2=;mask2[]BitOr=;expected_y=;predicted_y=;if(sample_weight is None){dy1=;dy2=}else{dy1=;dy2=};dy1=;dy2=;if(dy1 == 0){return};return" :=
   ⟨rfl, rfl⟩
 
 /-! ### non-vacuity: concrete instances satisfying the hypotheses -/
